@@ -299,6 +299,7 @@ class Unit:
 
     def emit_inst(self, it, inst_fn, facts):
         tu = self.tu
+        self._loops_applied = 0
         root = it.root_pick(tu, inst_fn) if it.root_pick else find_root(tu, inst_fn)
         if it.root_name and root.get('name') != it.root_name:
             raise ExtractError('snippet %s binds to %s, expected %s' % (it.name, root.get('name'), it.root_name))
@@ -416,6 +417,8 @@ class Unit:
         text = re.sub(r'\$FTABLE\(([A-Za-z0-9_]+)\)', ftable, text)
         cfile = os.path.join(self.dir, it.name + '.c')
         open(cfile, 'w').write(text)
+        # contract stubs that the extracted code does not call cannot be named to --replace-call-with-contract
+        extra_used = [n for n in it.extra_replace if len(re.findall(r'\b%s\(' % re.escape(n), text)) >= 2]
         self.emitted[it.name] = {
             'cfile': cfile, 'root': rootc, 'root_cxx': root.get('name'), 'mangled': root.get('mangledName'),
             'leaves': leaf_names, 'leaf_keys': [k for _, (f, k) in em.leaves.items()],
@@ -423,6 +426,7 @@ class Unit:
             'lowerings': dict(em.lowerings), 'has_loops': bool(getattr(em, 'loop_ordinal', {})),
             'n_functions': len(order), 'sites': sites, 'model_calls': model_calls,
             'ensures_tags': clause_tags(it.contract, 'ensures'), 'leaf_requires_tags': leaf_req,
+            'extra_replace': extra_used, 'loops_applied': self._loops_applied,
         }
 
     def loops(self, em, it, fn, text):
@@ -433,6 +437,7 @@ class Unit:
             lc = it.loop_contracts.get(key)
             if lc:
                 lc = subst(lc, em.sig_info[fn['id']]['params'])
+                self._loops_applied += 1
             return (lc + '\n') if lc else ''
         return re.sub(r'/\*LOOP:([A-Za-z0-9_]+):(\d+)\*/\n', rep, text)
 
@@ -463,11 +468,11 @@ class Unit:
     # ---------------------------------------------------------------- verification
     def verify_inst(self, it):
         info = self.emitted[it.name]
-        res = cbmc.verify(info['cfile'], self.dir, 'harness', [info['root']] + list(it.also_enforce), replace=info['leaves'] + list(it.extra_replace) + list(info.get('model_calls', [])),
-                          loop_contracts=bool(it.loop_contracts), nondet_volatile=it.nondet_volatile,
+        res = cbmc.verify(info['cfile'], self.dir, 'harness', [info['root']] + list(it.also_enforce), replace=info['leaves'] + list(info['extra_replace']) + list(info.get('model_calls', [])),
+                          loop_contracts=bool(info['loops_applied']), nondet_volatile=it.nondet_volatile,
                           includes=[os.path.join(VERIF, 'include'), self.dir], solvers=it.solvers, timeout=it.timeout,
                           unwind=it.unwind, extra_cbmc=it.extra_cbmc, object_bits=it.object_bits)
-        if res.status in ('ok', 'failed') and it.loop_contracts:
+        if res.status in ('ok', 'failed') and info['loops_applied']:
             # a silently dropped loop contract shows up as missing loop_invariant_step obligations
             if not any('loop_invariant_step' in n for n in res.obligations):
                 res.status = 'undecided'
@@ -478,7 +483,7 @@ class Unit:
             cdir = os.path.join(self.dir, 'canary_' + it.name)
             os.makedirs(cdir, exist_ok=True)
             r2 = cbmc.verify(info['cfile'], cdir, 'harness', [info['root']] + list(it.also_enforce),
-                             replace=info['leaves'] + list(it.extra_replace) + list(info.get('model_calls', [])), loop_contracts=bool(it.loop_contracts), nondet_volatile=it.nondet_volatile,
+                             replace=info['leaves'] + list(info['extra_replace']) + list(info.get('model_calls', [])), loop_contracts=bool(info['loops_applied']), nondet_volatile=it.nondet_volatile,
                              includes=[os.path.join(VERIF, 'include'), self.dir], defines=['CANARY'], solvers=it.solvers,
                              timeout=it.timeout, unwind=it.unwind, extra_cbmc=list(it.extra_cbmc) + ['--stop-on-fail'], trace=False,
                              object_bits=it.object_bits, stop_on_fail=True)
